@@ -623,6 +623,8 @@ class Canon:
         bl = _Blocks()
         bl.try_else = True
         body = bl.block(body, "func")
+        holder = ast.Module(body=body, type_ignores=[])
+        body = _AppendLoops().visit(holder).body   # (`x = []; for ..: x.append(E); return x` is the single expression `[E for ..]`)
         self._k[h.name] = self._k.get(h.name, 0) + 1
         sfx = h.name.lstrip("_") + ("" if self._k[h.name] == 1 else "_%d" % self._k[h.name])
         ren = {n: "_%s__%s" % (n.lstrip("_"), sfx) for n in _bound_names(node) if n not in ("self", "cls")}
@@ -919,9 +921,10 @@ class Canon:
                 while body and isinstance(body[0], ast.Assign) and len(body[0].targets) == 1 and isinstance(body[0].targets[0], ast.Name) and len(body) > 1:
                     env[body[0].targets[0].id] = sub(body[0].value)
                     body = body[1:]
-                if len(body) == 1 and isinstance(body[0], ast.Return) and body[0].value is not None:
+                value = _return_expr(body)
+                if value is not None:
                     canon._inlined[id(h)] = canon._inlined.get(id(h), 0) + (1 if depth == 0 else 0)
-                    return sub(body[0].value)
+                    return sub(value)
                 return n
 
             def visit_FunctionDef(self, n):
@@ -1082,6 +1085,20 @@ class Canon:
         from .rules.common import Src
 
         return Src(txt(self.fn(f)))
+
+
+def _return_expr(body, _depth=0):
+    """the value a block returns, as one expression: `return E`, or `if c: return A` followed by / `else:` a block of the same kind (-> `A if c else B`)"""
+    if len(body) == 1 and isinstance(body[0], ast.Return) and body[0].value is not None:
+        return body[0].value
+    if body and isinstance(body[0], ast.If) and _depth < 3:
+        st = body[0]
+        rest = st.orelse if len(body) == 1 else (body[1:] if not st.orelse else None)
+        if rest:
+            a, b = _return_expr(st.body, _depth + 1), _return_expr(rest, _depth + 1)
+            if a is not None and b is not None:
+                return ast.IfExp(test=st.test, body=a, orelse=b)
+    return None
 
 
 def _strip_doc(body):
